@@ -1003,6 +1003,10 @@ class OwnAnalyzer:
                 return st if v[2] == truth else None
             return self.refine_null(e, not truth, st)
         if k == 'call':
+            # cJSON_IsArray(x), cJSON_IsObject(x), ... are false for a NULL x: where one holds, x is not NULL
+            from .tree import NULL_REJECTING_PREDICATES
+            if callee_name(e) in NULL_REJECTING_PREDICATES and e.get('args') and truth:
+                return self.refine_null(e['args'][0], False, st)
             return st
         return st
 
